@@ -351,3 +351,29 @@ def preview_rows(n, half):
     if n > 2 * half:
         return 2 * half + 1
     return n
+
+
+# ------------------------------------------------------------------ C05 broadcast methods
+def broadcast_method_spec(values, method, args, kwargs):
+    """element i of the result is the method applied to element i, None staying None."""
+    return vec_inferred([None if e is None else getattr(e, method)(*args, **kwargs) for e in values],
+                        None, False)
+
+
+def broadcast_property_spec(values, name):
+    return vec_inferred([None if e is None else getattr(e, name) for e in values], None, False)
+
+
+# ------------------------------------------------------------------ C03 truthful dtype
+def truthful_elem(v, d):
+    """Element v is honestly described by dtype d."""
+    if d is None:
+        return False
+    if v is None:
+        return d.nullable
+    return belongs(type(v), d.kind)
+
+
+def truthful(v):
+    """C03 invariant of a one-dimensional vector (symbolically: for an arbitrary element)."""
+    return all(truthful_elem(e, v._dtype) for e in v._underlying)
